@@ -347,44 +347,46 @@ def r11_8(ctx):
 
 def r11_10(ctx):
     """whether a path's ops reach the rasteriser does not depend on the transform: no comparison that dominates one of
-    apply_path's move_to/line_to/quad_to/cubic_to/close calls reads self.transform — except a test of its determinant
-    against exactly zero (a singular transform leaves no area).  A transform-dependent skip drops the geometry for a
-    whole class of invertible transforms (e.g. `!(det > 0.)` drops every reflection)"""
+    apply_path's move_to/line_to/quad_to/cubic_to/close calls — or a call of apply_path in fill / push_clip, or of fill in
+    stroke — reads self.transform, except a test of its determinant against exactly zero (a singular transform leaves
+    no area).  A transform-dependent skip drops the geometry for a whole class of invertible transforms (e.g.
+    `!(det > 0.)` drops every reflection).  A test with such calls on both sides is a choice between two ways of adding
+    the ops (an identity fast path), not a gate"""
     R = 'R11.10'
-    b = ctx.body(DT + 'apply_path', R)
-    an = ctx.an(b)
-    key = 'draw_target::DrawTarget::apply_path'
-    names = ('move_to', 'line_to', 'quad_to', 'cubic_to', 'close')
-    sites = [(bi, d, ct) for bi, d, ct in calls_in(ctx, b) if d and d.startswith(DT) and d[len(DT):] in names]
-    ctx.floor(R, 'edge-adding calls of apply_path', len(sites), 5)
-    def reads_transform(t):
-        # condition terms are expanded through locals and inlined helpers: the read of self.transform is a subterm
-        return any(x[0] == 'field' and x[2] == 'transform' and strip_all(x[1]) in (('param', 1), ('deref', ('param', 1))) for x in subterms(t))
-    def singular_test(c):
-        while c[0] == 'un' and c[1] == 'Not':
-            c = c[2]
-        if c[0] == 'bin' and c[1] in ('Eq', 'Ne'):
-            for x, z in ((c[2], c[3]), (c[3], c[2])):
-                if const_val(z) == 0 and is_call(strip_all(x), 'determinant'):
-                    return True
-        return False
-    bad = {}
-    sides = {}
-    for bi, d, ct in sites:
-        for cond, truth, si in bool_guards(ctx, b, bi):
-            if reads_transform(cond) and not singular_test(cond):
-                sides.setdefault(si, {}).setdefault(truth, (cond, truth, d))
-    for si, by in sides.items():
-        # a test with ops on both sides selects between two ways of adding them (an identity fast path); a test with
-        # ops on one side only decides whether they are added at all
-        if len(by) == 1:
-            bad[si] = list(by.values())[0]
-    if not bad:
-        ctx.ok(R, key + '|ops independent of the transform', b.loc(), 'no comparison on the transform decides whether an op is added (%d calls)' % len(sites))
-    for si, (cond, truth, d) in sorted(bad.items()):
-        ctx.fail(R, key + '|ops independent of the transform', b.loc(b.blocks[si]['t'].get('sp')),
-                 'whether apply_path hands the path to the rasteriser depends on the transform: %s is reached only when `%s` is %s — geometry is dropped for every transform on the other side of that test (a test of the determinant against exactly zero would be the only exact one)'
-                 % (d.split('::')[-1], fmt(b, cond)[:120], 'true' if truth else 'false'))
+    total = 0
+    for fn, names in (('apply_path', ('move_to', 'line_to', 'quad_to', 'cubic_to', 'close')), ('fill', ('apply_path',)), ('push_clip', ('apply_path',)), ('stroke', ('fill',))):
+        b = ctx.body(DT + fn, R)
+        an = ctx.an(b)
+        key = 'draw_target::DrawTarget::%s' % fn
+        sites = [(bi, d, ct) for bi, d, ct in calls_in(ctx, b) if d and d.startswith(DT) and d[len(DT):] in names]
+        total += len(sites)
+        def reads_transform(t):
+            # condition terms are expanded through locals and inlined helpers: the read of self.transform is a subterm
+            return any(x[0] == 'field' and x[2] == 'transform' and strip_all(x[1]) in (('param', 1), ('deref', ('param', 1))) for x in subterms(t))
+        def singular_test(c):
+            while c[0] == 'un' and c[1] == 'Not':
+                c = c[2]
+            if c[0] == 'bin' and c[1] in ('Eq', 'Ne'):
+                for x, z in ((c[2], c[3]), (c[3], c[2])):
+                    if const_val(z) == 0 and is_call(strip_all(x), 'determinant'):
+                        return True
+            return False
+        bad = {}
+        sides = {}
+        for bi, d, ct in sites:
+            for cond, truth, si in bool_guards(ctx, b, bi):
+                if reads_transform(cond) and not singular_test(cond):
+                    sides.setdefault(si, {}).setdefault(truth, (cond, truth, d))
+        for si, by in sides.items():
+            if len(by) == 1:
+                bad[si] = list(by.values())[0]
+        if not bad:
+            ctx.ok(R, key + '|ops independent of the transform', b.loc(), 'no comparison on the transform decides whether the geometry is handed on (%d calls)' % len(sites))
+        for si, (cond, truth, d) in sorted(bad.items()):
+            ctx.fail(R, key + '|ops independent of the transform', b.loc(b.blocks[si]['t'].get('sp')),
+                     'whether %s hands the path to the rasteriser depends on the transform: %s is reached only when `%s` is %s — geometry is dropped for every transform on the other side of that test (a test of the determinant against exactly zero would be the only exact one)'
+                     % (fn, d.split('::')[-1], fmt(b, cond)[:120], 'true' if truth else 'false'))
+    ctx.floor(R, 'edge-adding calls of apply_path and calls handing a path on', total, 8)
 
 
 def _r04_5(ctx):
